@@ -56,7 +56,10 @@ TEXT = {
     "model_checking": "Exhaustive within the stated bounds (definitions of the listed families, outcome menus, "
                       "control-request budgets, deviation bound for big shapes): every explored transition is an "
                       "execution of the real conductor API and is judged by the oracle; nothing is sampled. "
-                      "The claim does not extend beyond the bounds (small-scope hypothesis).",
+                      "The claim does not extend beyond the bounds (small-scope hypothesis). The thorough "
+                      "tier additionally has a wall-clock budget (VERIF_BUDGET_S, default 1200 s per worker "
+                      "pool): explorations cut by it are listed in the evidence and the run is then not "
+                      "marked exhaustive.",
     "exploration": "Exhaustive over a finite input grammar (printed in the evidence), each case executed on the "
                    "real code and compared with a reference; nothing about inputs outside the grammar.",
 }
